@@ -30,7 +30,8 @@ CAVals == [ method : {"private_key_jwt", "client_secret_basic", "client_secret_p
             \* child_path / with_query / other_case: URLs that merely start with, extend or re-spell the token URL -- "contains the token URL" is equality of one element
             aud    : {"token_url", "other", "list_with_token_url", "list_without", "absent", "child_path", "with_query", "list_child_path"},
             \* *_frac: NumericDate values with a fractional part (RFC 7519 allows them); they expire when their instant has passed like any other
-            exp    : {"future", "past", "absent", "string", "future_frac", "past_frac"},
+            \* just_past: one second ago -- there is no grace period in the statement
+            exp    : {"future", "past", "absent", "string", "future_frac", "past_frac", "just_past"},
             jti    : {"fresh", "absent"},
             \* how the assertion is put into the form
             form   : {"normal", "empty_assertion", "unknown_type", "with_other_client_id"} ]
@@ -55,8 +56,8 @@ BGVals == [ key    : {"registered", "other_issuer", "unregistered"},
             kid    : {"right", "absent", "unknown"},
             who    : {"registered", "other_subject", "no_iss", "no_sub"},
             aud    : {"token_url", "other", "list_with_token_url", "absent", "child_path", "with_query", "list_child_path"},
-            exp    : {"future", "past", "beyond_max", "absent", "future_frac", "past_frac"},
-            nbf    : {"absent", "past", "future"},
+            exp    : {"future", "past", "beyond_max", "absent", "future_frac", "past_frac", "just_past"},
+            nbf    : {"absent", "past", "future", "just_future"},
             iat    : {"present", "absent"},
             iatopt : BOOLEAN,
             jti    : {"fresh", "absent"},
